@@ -139,6 +139,14 @@ def run(ctx):
                 bad.append(("rfc3339-not-timestamp", "the value returned for an RFC3339 string is not dt.timestamp()", None))
             if extra:
                 bad.append(("rfc3339-recomputed:%s" % ",".join(x.split("::")[-1] for x in extra), "the value returned for a full RFC3339 instant is recomputed through %s: the same instant is then stored differently depending on spelling / field kind" % extra, None))
+        # the same on the paths that return something else than a literal Some(..): a call result, or a value chosen by the field kind
+        for c_ in b.calls:
+            if not c_.cleanup and c_.dest == [0] and any(b.dominates_edge(e, c_.bb) for e in oke):
+                n += 1
+                bad.append(("rfc3339-recomputed:%s" % c_.nname.split("::")[-1], "on the RFC3339 path parse_str_to_epoch_seconds returns the result of %s instead of dt.timestamp(): the same instant is then stored differently depending on spelling / field kind" % c_.nname, sp(b, c_.bb)))
+        for i_, si_ in enum_switches_on(b, lambda L: has_origin(L, "param", "kind"), r"TimeKind$"):
+            if any(b.dominates_edge(e, i_) for e in oke):
+                bad.append(("rfc3339-depends-on-kind", "for a full RFC3339 instant parse_str_to_epoch_seconds branches on the field kind: a date field stores another value for the same instant than a datetime field, a numeric spelling or the query side (which always asks for DateTime)", sp(b, i_)))
         if n < 1:
             raise AnchorMissing("return Some(..) on the RFC3339 path")
         return bad
